@@ -635,16 +635,42 @@ Proof. destruct v; [congruence| | |]; reflexivity. Qed.
 Lemma idx_scan_nonnull c ty lo hi t :
   (forall r, In r t -> nth c r VNull <> VNull) ->
   exists out, idx_scan c ty lo hi t = Some out /\
-              Permutation out (filter (fun r => in_range lo hi (nth c r VNull)) t).
+              Permutation out (filter (fun r => scan_in lo hi (nth c r VNull)) t).
 Proof.
   intros Hn. unfold idx_scan.
-  assert (filter (fun r => in_range lo hi (index_key ty (nth c r VNull))) t
-          = filter (fun r => in_range lo hi (nth c r VNull)) t) as E.
+  assert (filter (fun r => scan_in lo hi (index_key ty (nth c r VNull))) t
+          = filter (fun r => scan_in lo hi (nth c r VNull)) t) as E.
   { apply filter_ext_in. intros r Hr. now rewrite index_key_nonnull by (apply Hn; exact Hr). }
   rewrite E. rewrite existsb_false_in.
   - eexists. split; [reflexivity|apply sort_perm].
   - intros r Hr. apply filter_In in Hr. destruct Hr as [Hr _].
     specialize (Hn r Hr). destruct (nth c r VNull); [congruence| | |]; reflexivity.
+Qed.
+
+Lemma existsb_filter {A} (f g : A -> bool) : forall l,
+  existsb f (filter g l) = existsb (fun x => f x && g x) l.
+Proof.
+  induction l as [|x l IH]; cbn; [reflexivity|].
+  destruct (g x); cbn; rewrite IH; [now rewrite andb_true_r|now rewrite andb_false_r].
+Qed.
+
+Lemma existsb_ext {A} (f g : A -> bool) : (forall x, f x = g x) -> forall l, existsb f l = existsb g l.
+Proof. intros H. induction l as [|x l IH]; cbn; [reflexivity|]. now rewrite H, IH. Qed.
+
+(** A plan aborts exactly when its index scan meets a NULL entry. *)
+Lemma run_plan_none_iff : forall pl t, run_plan pl t = None <-> plan_hits_null pl t = true.
+Proof.
+  induction pl as [| e out | c ty lo hi | ch IH e | ch IH cols]; intros t; cbn [run_plan plan_hits_null].
+  - split; discriminate.
+  - split; discriminate.
+  - unfold idx_scan. rewrite existsb_filter.
+    rewrite (existsb_ext (fun r => is_null (nth c r VNull) && scan_in lo hi (index_key ty (nth c r VNull)))
+                         (fun r => is_null (nth c r VNull) && scan_in lo hi (zero_of ty))).
+    + match goal with |- context [existsb ?f t] => destruct (existsb f t) end;
+        split; intros H; try reflexivity; discriminate.
+    + intros r. destruct (nth c r VNull); reflexivity.
+  - rewrite <- IH. destruct (run_plan ch t); split; intros H; try reflexivity; discriminate.
+  - rewrite <- IH. destruct (run_plan ch t); split; intros H; try reflexivity; discriminate.
 Qed.
 
 (** * 7. Ranges derived by the walk *)
@@ -653,148 +679,23 @@ Qed.
 Definition conj_on (c : nat) (p : pred) (v : value) : Prop :=
   forall x, In x (cmps p) -> c3col x = c -> eval_cmp (c3op x) v (c3lit x) = true.
 
-(** The scan bounds are compared as ordinary values: a bound still equal to a
-    sentinel does not cut off [v]. *)
-Definition bounds_cover (lo hi v : value) : Prop :=
-  (cv_is_inf_min lo = true -> vle lo v = true) /\ (cv_is_inf_max hi = true -> vle v hi = true).
-
-Lemma range_superset_partial_lemma : forall sch p st c v,
+(** Every value satisfying the comparisons on an indexed column is covered by
+    the scan of the derived range (a bound that is a sentinel is no bound). *)
+Lemma range_superset_lemma : forall sch p st c v,
   has_or p = false -> lits_ok sch p -> walk sch p = Some st -> col_indexed sch c = true ->
   v <> VNull -> conj_on c p v ->
-  bounds_cover (rmin (ws_rng st c)) (rmax (ws_rng st c)) v ->
-  in_range (rmin (ws_rng st c)) (rmax (ws_rng st c)) v = true.
+  scan_in (rmin (ws_rng st c)) (rmax (ws_rng st c)) v = true.
 Proof.
-  intros sch p st c v Hor Hl Hw Hc Hv Hconj [Hlo Hhi].
+  intros sch p st c v Hor Hl Hw Hc Hv Hconj.
   rewrite (walk_spec sch p Hor) in Hw. injection Hw as <-.
   rewrite (final_range sch p c Hc) in *.
   destruct (fold_sup c v Hv (cmps p) (new_range (col_type sch c))) as [A B].
   - intros x Hx Hcx. split; [apply (Hl x Hx)|apply Hconj; assumption].
   - right. cbn [new_range rmin]. apply inf_min_is.
   - right. cbn [new_range rmax]. apply inf_max_is.
-  - unfold in_range. apply andb_true_iff. split.
-    + destruct A as [A|A]; [exact A|exact (Hlo A)].
-    + destruct B as [B|B]; [exact B|exact (Hhi B)].
-Qed.
-
-Definition range_superset : Prop := forall sch p st c v,
-  has_or p = false -> lits_ok sch p -> walk sch p = Some st -> col_indexed sch c = true ->
-  v <> VNull -> val_ok (col_type sch c) v -> conj_on c p v ->
-  in_range (rmin (ws_rng st c)) (rmax (ws_rng st c)) v = true.
-
-(** s >= 'A' on a varchar column: the scan range is ['A', "SamehadaDBInfMaxValue"],
-    which does not contain 'alice'. *)
-Lemma range_superset_refuted_lemma : ~ range_superset.
-Proof.
-  intros H.
-  set (sch := [(TStr, true)] : schema).
-  set (p := PCmp 0 OGe (VStr [65%N])).
-  set (v := VStr [97; 108; 105; 99; 101]%N).
-  assert (has_or p = false) as Hor by reflexivity.
-  specialize (H sch p (final_state sch p) O v Hor).
-  assert (in_range (rmin (ws_rng (final_state sch p) 0)) (rmax (ws_rng (final_state sch p) 0)) v = true) as E.
-  { apply H.
-    - intros x [<-|[]]. split; [discriminate|reflexivity].
-    - apply walk_spec. exact Hor.
-    - reflexivity.
-    - discriminate.
-    - reflexivity.
-    - intros x [<-|[]] _. reflexivity. }
-  vm_compute in E. discriminate.
-Qed.
-
-(** Typing of the derived bounds. *)
-Definition has_ty (ty : coltype) (v : value) : Prop :=
-  match ty, v with
-  | TInt, VInt _ | TFloat, VFloat _ | TStr, VStr _ => True
-  | _, _ => False
-  end.
-
-Lemma lit_has_ty ty l : val_ok ty l -> l <> VNull -> has_ty ty l.
-Proof.
-  destruct l; cbn; [congruence| | |]; intros H _.
-  - destruct H as [-> _]. exact I.
-  - destruct H as [-> _]. exact I.
-  - subst. exact I.
-Qed.
-
-Lemma update_typed ty o l d r : has_ty ty l ->
-  has_ty ty (rmin r) /\ has_ty ty (rmax r) ->
-  has_ty ty (rmin (range_update o l d r)) /\ has_ty ty (rmax (range_update o l d r)).
-Proof.
-  intros Hl [A B]. unfold range_update.
-  destruct o; cbn [rmin rmax]; try (split; assumption).
-  - destruct (_ || _); [destruct (_ || _)|destruct (_ || _)]; cbn [set_max set_min rmin rmax]; split; assumption.
-  - destruct (_ || _); [destruct (_ || _)|]; cbn [set_max set_min rmin rmax]; split; assumption.
-  - destruct (_ || _); [destruct (_ || _)|destruct (_ || _)]; cbn [set_max set_min rmin rmax]; split; assumption.
-  - destruct (_ || _); [destruct (_ || _)|]; cbn [set_max set_min rmin rmax]; split; assumption.
-Qed.
-
-Lemma fold_typed ty c : forall ops r,
-  (forall x, In x ops -> c3col x = c -> has_ty ty (c3lit x)) ->
-  has_ty ty (rmin r) /\ has_ty ty (rmax r) ->
-  has_ty ty (rmin (fold_left (cstep c) ops r)) /\ has_ty ty (rmax (fold_left (cstep c) ops r)).
-Proof.
-  induction ops as [|x ops IH]; intros r H Hr; cbn; [assumption|].
-  apply IH; [intros y Hy; apply H; now right|].
-  unfold cstep. destruct (Nat.eqb c (c3col x)) eqn:E; [|assumption].
-  apply Nat.eqb_eq in E. apply update_typed; [|assumption]. apply H; [now left|now symmetry].
-Qed.
-
-Lemma final_range_typed sch p c : lits_ok sch p -> col_indexed sch c = true ->
-  has_ty (col_type sch c) (rmin (ws_rng (final_state sch p) c)) /\
-  has_ty (col_type sch c) (rmax (ws_rng (final_state sch p) c)).
-Proof.
-  intros Hl Hc. rewrite (final_range sch p c Hc). apply fold_typed.
-  - intros x Hx E. destruct (Hl x Hx) as [Hn Hv]. rewrite E in Hv. now apply lit_has_ty.
-  - destruct (col_type sch c); cbn; split; exact I.
-Qed.
-
-(** Values inside the sentinel window of their type. *)
-Definition window_ok (ty : coltype) (v : value) : Prop :=
-  vle (inf_min ty) v = true /\ vle v (inf_max ty) = true.
-
-Lemma window_int v : val_ok TInt v -> v <> VNull -> window_ok TInt v.
-Proof.
-  destruct v as [|z|u|s]; cbn; [congruence| | |]; intros H _; try (destruct H; discriminate); try discriminate.
-  destruct H as [_ [H1 H2]]. unfold min_int32, max_int32 in *.
-  unfold window_ok, vle. cbn [inf_min inf_max vcmp]. unfold min_int32, max_int32. split.
-  - destruct (Z.compare_spec (-2147483648) z); try reflexivity. lia.
-  - destruct (Z.compare_spec z 2147483647); try reflexivity. lia.
-Qed.
-
-Lemma go_feq_true u v : go_feq u v = true -> f_key u = f_key v.
-Proof.
-  unfold go_feq. intros H. apply andb_true_iff in H. destruct H as [_ H]. now apply Z.eqb_eq in H.
-Qed.
-
-Lemma window_covers ty lo hi v : has_ty ty lo -> has_ty ty hi -> window_ok ty v -> bounds_cover lo hi v.
-Proof.
-  intros Hlo Hhi [W1 W2]. split; intros H.
-  - destruct ty, lo; cbn in Hlo; try contradiction; cbn [cv_is_inf_min] in H; cbn [inf_min] in W1.
-    + apply Z.eqb_eq in H. now subst.
-    + apply go_feq_true in H. unfold vle in *. destruct v; cbn [vcmp] in *; try discriminate.
-      unfold f_cmp in *. now rewrite H.
-    + unfold s_eq in H. destruct (lex_cmp s inf_min_str) eqn:E; try discriminate.
-      apply lex_cmp_eq in E. now subst.
-  - destruct ty, hi; cbn in Hhi; try contradiction; cbn [cv_is_inf_max] in H; cbn [inf_max] in W2.
-    + apply Z.eqb_eq in H. now subst.
-    + apply go_feq_true in H. unfold vle in *. destruct v; cbn [vcmp] in *; try discriminate.
-      unfold f_cmp in *. now rewrite H.
-    + unfold s_eq in H. destruct (lex_cmp s inf_max_str) eqn:E; try discriminate.
-      apply lex_cmp_eq in E. now subst.
-Qed.
-
-(** Integers: the derived range always contains every qualifying value. *)
-Lemma range_superset_int_lemma : forall sch p st c v,
-  has_or p = false -> lits_ok sch p -> walk sch p = Some st -> col_indexed sch c = true ->
-  col_type sch c = TInt -> v <> VNull -> val_ok TInt v -> conj_on c p v ->
-  in_range (rmin (ws_rng st c)) (rmax (ws_rng st c)) v = true.
-Proof.
-  intros sch p st c v Hor Hl Hw Hc Hty Hv Hok Hconj.
-  apply (range_superset_partial_lemma sch p st c v); auto.
-  pose proof Hw as Hw'. rewrite (walk_spec sch p Hor) in Hw'. injection Hw' as <-.
-  destruct (final_range_typed sch p c Hl Hc) as [A B]. rewrite Hty in A, B.
-  apply (window_covers TInt); auto. now apply window_int.
+  - unfold scan_in. apply andb_true_iff. split; apply orb_true_iff.
+    + destruct A as [A|A]; [right; exact A|left; exact A].
+    + destruct B as [B|B]; [right; exact B|left; exact B].
 Qed.
 
 (** ** Exactness when no Selection is attached *)
@@ -870,12 +771,16 @@ Qed.
 Lemma range_exact_lemma : forall sch p st c e,
   has_or p = false -> lits_ok sch p -> walk sch p = Some st -> col_indexed sch c = true ->
   range_empty (ws_rng st c) = false ->
+  cv_is_inf_min (rmin (ws_rng st c)) && rmin_inc (ws_rng st c) = false ->
+  cv_is_inf_max (rmax (ws_rng st c)) && rmax_inc (ws_rng st c) = false ->
   ws_inexact st c = false -> rmin_inc (ws_rng st c) = true -> rmax_inc (ws_rng st c) = true ->
   scan_exp (ws_related st) = Some e -> touch_only e c = true ->
   forall r, nth c r VNull <> VNull ->
-    in_range (rmin (ws_rng st c)) (rmax (ws_rng st c)) (nth c r VNull) = eval_pred r p.
+    scan_in (rmin (ws_rng st c)) (rmax (ws_rng st c)) (nth c r VNull) = eval_pred r p.
 Proof.
-  intros sch p st c e Hor Hl Hw Hc Hem Hin Hi1 Hi2 Hse Hto r Hv.
+  intros sch p st c e Hor Hl Hw Hc Hem Hs1 Hs2 Hin Hi1 Hi2 Hse Hto r Hv.
+  rewrite Hi1, andb_true_r in Hs1. rewrite Hi2, andb_true_r in Hs2.
+  unfold scan_in. rewrite Hs1, Hs2. cbn [orb]. fold (in_range (rmin (ws_rng st c)) (rmax (ws_rng st c)) (nth c r VNull)).
   rewrite (walk_spec sch p Hor) in Hw. injection Hw as <-.
   rewrite final_related in Hse.
   destruct (exact_core sch p c Hor Hl Hc Hem Hin Hi1 Hi2 (touch_scan_exp c (cmps p) e Hse Hto))
@@ -886,15 +791,14 @@ Qed.
 
 (** * 8. Candidate plans *)
 
-(** What an index range scan on column [c] over [lo,hi] needs from the table:
-    no NULL in the column (a NULL entry met by the scan aborts the statement),
-    and no stored value beyond a bound that is still a sentinel. *)
-Definition idx_side_ok (c : nat) (lo hi : value) (t : table) : Prop :=
-  forall r, In r t -> nth c r VNull <> VNull /\ bounds_cover lo hi (nth c r VNull).
+(** What an index range scan on column [c] needs from the table: no NULL in the
+    column (a NULL entry met by the scan aborts the statement). *)
+Definition idx_side_ok (c : nat) (t : table) : Prop :=
+  forall r, In r t -> nth c r VNull <> VNull.
 
 Fixpoint plan_ok (pl : plan) (t : table) : Prop :=
   match pl with
-  | PIndexRange c _ lo hi => idx_side_ok c lo hi t
+  | PIndexRange c _ _ _ => idx_side_ok c t
   | PSelection ch _ | PProjection ch _ => plan_ok ch t
   | _ => True
   end.
@@ -938,7 +842,7 @@ Lemma index_candidate_equiv sch p cols t c pl :
   has_or p = false -> lits_ok sch p -> table_ok sch t -> sel_safe p t ->
   col_indexed sch c = true ->
   index_candidate sch (final_state sch p) cols c = Some pl ->
-  idx_side_ok c (rmin (ws_rng (final_state sch p) c)) (rmax (ws_rng (final_state sch p) c)) t ->
+  idx_side_ok c t ->
   exists out, run_plan pl t = Some out /\ Permutation out (sel cols p t).
 Proof.
   intros Hor Hl Ht Hs Hc Hpl Hside.
@@ -946,11 +850,13 @@ Proof.
   set (st := final_state sch p) in *. set (R := ws_rng st c) in *.
   destruct (range_empty R) eqn:Hem; [discriminate|].
   assert (Hw : walk sch p = Some st) by (apply walk_spec; exact Hor).
-  destruct (idx_scan_nonnull c (col_type sch c) (rmin R) (rmax R) t (fun r Hr => proj1 (Hside r Hr)))
+  destruct (idx_scan_nonnull c (col_type sch c) (rmin R) (rmax R) t Hside)
     as (rows & Hscan & Hperm).
   unfold st in Hpl at 1. rewrite final_related in Hpl.
   destruct (scan_exp (cmps p)) as [e|] eqn:He.
-  - destruct (negb (touch_only e c) || (negb (rmin_inc R) || negb (rmax_inc R) || ws_inexact st c)) eqn:Chk;
+  - destruct (negb (touch_only e c)
+              || (cv_is_inf_min (rmin R) && rmin_inc R || cv_is_inf_max (rmax R) && rmax_inc R
+                  || (negb (rmin_inc R) || negb (rmax_inc R) || ws_inexact st c))) eqn:Chk;
       injection Hpl as <-; cbn [run_plan]; rewrite Hscan; eexists; (split; [reflexivity|]);
       unfold sel; apply Permutation_map.
     + (* Selection on top of the scan *)
@@ -960,20 +866,20 @@ Proof.
         intros r Hr. apply (eng_ref_on_table sch p t e Hor Hl Ht Hs He r Hr).
       * intros r Hr Hev.
         rewrite (eng_ref_on_table sch p t e Hor Hl Ht Hs He r Hr) in Hev.
-        destruct (Hside r Hr) as [Hnn Hcov].
-        apply (range_superset_partial_lemma sch p st c (nth c r VNull) Hor Hl Hw Hc Hnn); [|exact Hcov].
+        apply (range_superset_lemma sch p st c (nth c r VNull) Hor Hl Hw Hc (Hside r Hr)).
         now apply eval_pred_conj_on.
     + (* bare scan: the range is exact *)
       apply orb_false_iff in Chk. destruct Chk as [Cto Chk].
+      apply orb_false_iff in Chk. destruct Chk as [Csent Chk].
+      apply orb_false_iff in Csent. destruct Csent as [Cs1 Cs2].
       apply orb_false_iff in Chk. destruct Chk as [Chk Cin].
       apply orb_false_iff in Chk. destruct Chk as [Ci1 Ci2].
       apply negb_false_iff in Cto, Ci1, Ci2.
       eapply Permutation_trans; [exact Hperm|].
       rewrite (filter_ext_in _ (fun r => eval_pred r p)); [apply Permutation_refl|].
       intros r Hr.
-      apply (range_exact_lemma sch p st c e Hor Hl Hw Hc Hem Cin Ci1 Ci2); auto.
-      * unfold st. now rewrite final_related.
-      * apply (Hside r Hr).
+      apply (range_exact_lemma sch p st c e Hor Hl Hw Hc Hem Cs1 Cs2 Cin Ci1 Ci2); auto.
+      unfold st. now rewrite final_related.
   - apply scan_exp_none in He. exfalso.
     unfold R, st in Hem. rewrite (final_range sch p c Hc), He in Hem. cbn in Hem.
     now rewrite new_range_empty in Hem.
@@ -1004,11 +910,11 @@ Proof.
   apply in_or_app. right. now left.
 Qed.
 
-Lemma plan_ok_index sch st cols c pl t : index_candidate sch st cols c = Some pl -> plan_ok pl t ->
-  idx_side_ok c (rmin (ws_rng st c)) (rmax (ws_rng st c)) t.
+Lemma plan_ok_index sch st cols c pl t : index_candidate sch st cols c = Some pl ->
+  (plan_ok pl t <-> idx_side_ok c t).
 Proof.
   unfold index_candidate. destruct (range_empty _); [discriminate|].
-  destruct (scan_exp _) as [e|]; [destruct (_ || _)|]; intros H; injection H as <-; cbn; auto.
+  destruct (scan_exp _) as [e|]; [destruct (_ || _)|]; intros H; injection H as <-; cbn; reflexivity.
 Qed.
 
 (** scan_plan_equiv, as it holds for the faithful model. *)
@@ -1021,7 +927,7 @@ Proof.
   destruct (candidates_inv sch p cols l pl Hor Hc Hin) as [->|(c & Hci & Hpl)].
   - eexists. split; [apply seq_candidate_equiv; assumption|apply Permutation_refl].
   - apply (index_candidate_equiv sch p cols t c pl); auto.
-    apply (plan_ok_index sch _ cols c pl t Hpl Hok).
+    apply (plan_ok_index sch _ cols c pl t Hpl). exact Hok.
 Qed.
 
 Lemma chosen_plan_equiv_lemma : forall sch p cols t k pl,
@@ -1044,11 +950,31 @@ Proof.
   apply filter_ext_in. intros r Hr. apply (eng_eval_ref sch r (Ht r Hr) p Hl (Hs r Hr)).
 Qed.
 
-(** ** Integer-only schemas: no sentinel hypothesis is needed. *)
+(** ** Side conditions stated on the table *)
 
 Definition all_int (sch : schema) : Prop := forall c, col_type sch c = TInt.
 Definition indexed_nonnull (sch : schema) (t : table) : Prop :=
   forall c, col_indexed sch c = true -> forall r, In r t -> nth c r VNull <> VNull.
+
+Lemma plan_ok_of_nonnull : forall sch p cols t l pl,
+  has_or p = false -> indexed_nonnull sch t ->
+  candidates sch p cols = Some l -> In pl l -> plan_ok pl t.
+Proof.
+  intros sch p cols t l pl Hor Hnn Hc Hin.
+  destruct (candidates_inv sch p cols l pl Hor Hc Hin) as [->|(c & Hci & Hpl)].
+  - unfold seq_candidate. destruct (scan_exp _); exact I.
+  - apply (plan_ok_index sch _ cols c pl t Hpl). exact (Hnn c Hci).
+Qed.
+
+Lemma scan_plan_equiv_nonnull_lemma : forall sch p cols t l pl,
+  has_or p = false -> lits_ok sch p -> table_ok sch t -> sel_safe p t -> indexed_nonnull sch t ->
+  candidates sch p cols = Some l -> In pl l ->
+  exists out, run_plan pl t = Some out /\ Permutation out (sel cols p t).
+Proof.
+  intros sch p cols t l pl Hor Hl Ht Hs Hnn Hc Hin.
+  apply (scan_plan_equiv_partial_lemma sch p cols t l pl); auto.
+  apply (plan_ok_of_nonnull sch p cols t l pl); auto.
+Qed.
 
 Lemma sel_safe_int sch p t : all_int sch -> lits_ok sch p -> table_ok sch t -> sel_safe p t.
 Proof.
@@ -1061,41 +987,29 @@ Proof.
   apply bad_int_never; [apply Ht|apply Hv].
 Qed.
 
+(** Integer-only schemas: Compare* has no defect, only the NULL condition is left. *)
 Lemma scan_plan_equiv_int_lemma : forall sch p cols t l pl,
   all_int sch -> has_or p = false -> lits_ok sch p -> table_ok sch t -> indexed_nonnull sch t ->
   candidates sch p cols = Some l -> In pl l ->
   exists out, run_plan pl t = Some out /\ Permutation out (sel cols p t).
 Proof.
   intros sch p cols t l pl Hi Hor Hl Ht Hnn Hc Hin.
-  pose proof (sel_safe_int sch p t Hi Hl Ht) as Hs.
-  destruct (candidates_inv sch p cols l pl Hor Hc Hin) as [->|(c & Hci & Hpl)].
-  - eexists. split; [apply seq_candidate_equiv; assumption|apply Permutation_refl].
-  - apply (index_candidate_equiv sch p cols t c pl); auto.
-    intros r Hr. split; [apply (Hnn c Hci r Hr)|].
-    destruct (final_range_typed sch p c Hl Hci) as [A B].
-    apply (window_covers (col_type sch c)); auto.
-    rewrite Hi. apply window_int; [|apply (Hnn c Hci r Hr)].
-    specialize (Ht r Hr c). now rewrite Hi in Ht.
+  apply (scan_plan_equiv_nonnull_lemma sch p cols t l pl); auto.
+  apply (sel_safe_int sch p t Hi Hl Ht).
 Qed.
 
-(** Any schema: it is enough that the indexed columns hold no NULL and only
-    values inside the sentinel window of their type (all integers, all finite
-    floats, and — since "SamehadaDBInfMaxValue" < "SamehadaDBInfMinValue" — no string). *)
-Lemma plan_ok_of_window : forall sch p cols t l pl,
-  has_or p = false -> lits_ok sch p ->
-  (forall c, col_indexed sch c = true -> forall r, In r t ->
-     nth c r VNull <> VNull /\ window_ok (col_type sch c) (nth c r VNull)) ->
-  candidates sch p cols = Some l -> In pl l -> plan_ok pl t.
+(** The NULL signature is sound: when it does not fire, no indexed column holds NULL. *)
+Lemma has_null_false sch t : has_null_in_indexed_col sch t = false -> indexed_nonnull sch t.
 Proof.
-  intros sch p cols t l pl Hor Hl Hw Hc Hin.
-  destruct (candidates_inv sch p cols l pl Hor Hc Hin) as [->|(c & Hci & Hpl)].
-  - unfold seq_candidate. destruct (scan_exp _); exact I.
-  - assert (idx_side_ok c (rmin (ws_rng (final_state sch p) c)) (rmax (ws_rng (final_state sch p) c)) t) as Hs.
-    { intros r Hr. destruct (Hw c Hci r Hr) as [Hn Hwin]. split; [exact Hn|].
-      destruct (final_range_typed sch p c Hl Hci) as [A B].
-      apply (window_covers (col_type sch c)); auto. }
-    revert Hpl Hs. unfold index_candidate. destruct (range_empty _); [discriminate|].
-    destruct (scan_exp _) as [e|]; [destruct (_ || _)|]; intros H; injection H as <-; cbn; auto.
+  unfold has_null_in_indexed_col. intros H c Hc r Hr Hnull.
+  assert (In c (indexed_cols sch)) as Hin.
+  { unfold indexed_cols. apply filter_In. split; [|exact Hc]. apply in_seq. split; [lia|]. cbn.
+    destruct (Nat.lt_ge_cases c (length sch)) as [Hlt|Hge]; [exact Hlt|].
+    unfold col_indexed in Hc. rewrite nth_overflow in Hc by exact Hge. discriminate. }
+  assert (existsb (fun r => existsb (fun c => is_null (nth c r VNull)) (indexed_cols sch)) t = true) as E.
+  { apply existsb_exists. exists r. split; [exact Hr|]. apply existsb_exists. exists c. split; [exact Hin|].
+    rewrite Hnull. reflexivity. }
+  rewrite H in E. discriminate.
 Qed.
 
 (** * 9. What fails without the side conditions *)
@@ -1111,8 +1025,6 @@ Ltac one_col_table :=
   intros r [<-|[]] c; destruct c as [|c]; [|destruct c]; cbn; auto.
 
 Definition str_T : list N := [84%N].
-Definition str_A : list N := [65%N].
-Definition str_alice : list N := [97; 108; 105; 99; 101]%N.
 
 (** (a) A literal equal to a sentinel string: [s < 'SamehadaDBInfMaxValue'] keeps 'T'.
     Every hypothesis of the partial theorem holds except [sel_safe]. *)
@@ -1136,35 +1048,13 @@ Proof.
   split; vm_compute; reflexivity.
 Qed.
 
-(** (b) A one-sided range on a varchar column: [s >= 'A'] scans
-    ['A', "SamehadaDBInfMaxValue"] and misses 'alice'.  Every hypothesis of the
-    partial theorem holds except [plan_ok] (the upper bound is still the sentinel
-    and 'alice' lies above it). *)
-Lemma sentinel_bound_refuted_lemma :
-  let sch := [(TStr, true)] : schema in
-  let p := PCmp 0 OGe (VStr str_A) in
-  let t := [[VStr str_alice]] : table in
-  let pl := PProjection (PSelection (PIndexRange 0 TStr (VStr str_A) (VStr inf_max_str)) p) [O] in
-  has_or p = false /\ lits_ok sch p /\ table_ok sch t /\ sel_safe p t /\
-  (exists l, candidates sch p [O] = Some l /\ In pl l) /\
-  run_plan pl t = Some [] /\ sel [O] p t = [[VStr str_alice]].
-Proof.
-  cbv zeta.
-  split; [reflexivity|].
-  split; [intros x [<-|[]]; split; [discriminate|reflexivity]|].
-  split; [one_col_table|].
-  split; [intros r [<-|[]] x [<-|[]]; right; reflexivity|].
-  split; [eexists; split; [vm_compute; reflexivity|left; reflexivity]|].
-  split; vm_compute; reflexivity.
-Qed.
-
 Lemma scan_plan_equiv_refuted_lemma : ~ scan_plan_equiv.
 Proof.
   intros H.
-  destruct sentinel_bound_refuted_lemma as (Hor & Hl & Ht & _ & (l & Hc & Hin) & Hrun & Hsel).
-  destruct (H _ _ _ _ _ _ Hor Hl Ht Hc Hin) as (out & Ho & Hp).
+  destruct sentinel_literal_refuted_lemma as (Hor & Hl & Ht & Hc & _ & _ & Hrun & Hsel).
+  destruct (H _ _ _ _ _ _ Hor Hl Ht Hc (or_introl eq_refl)) as (out & Ho & Hp).
   rewrite Hrun in Ho. injection Ho as <-. rewrite Hsel in Hp.
-  apply Permutation_nil in Hp. discriminate.
+  apply Permutation_sym, Permutation_nil in Hp. discriminate.
 Qed.
 
 (** (c) NULL in an indexed column: it sits in the index under key 0, the scan for
@@ -1177,7 +1067,8 @@ Lemma null_in_index_refuted_lemma :
   let pl := PProjection (PIndexRange 0 TInt (VInt 0) (VInt 0)) [O] in
   all_int sch /\ has_or p = false /\ lits_ok sch p /\ table_ok sch t /\
   (exists l, candidates sch p [O] = Some l /\ In pl l) /\
-  run_plan pl t = None /\ sel [O] p t = [[VInt 0]].
+  run_plan pl t = None /\ sel [O] p t = [[VInt 0]] /\
+  has_null_in_indexed_col sch t = true /\ plan_hits_null pl t = true.
 Proof.
   cbv zeta.
   split; [intros c; destruct c as [|c]; [|destruct c]; reflexivity|].
@@ -1189,7 +1080,7 @@ Proof.
   { intros r [<-|[<-|[]]] c; destruct c as [|c]; try (destruct c); cbn; auto.
     split; [reflexivity|]. unfold int_ok, min_int32, max_int32. lia. }
   split; [eexists; split; [vm_compute; reflexivity|left; reflexivity]|].
-  split; vm_compute; reflexivity.
+  repeat split; vm_compute; reflexivity.
 Qed.
 
 (** The defect signature is sound: when it does not fire, [sel_safe] holds. *)
